@@ -106,6 +106,12 @@ def check_model(ctx, fm, idx):
 
 
 def run(ctx: C.Ctx):
+    from .. import shapes_static, translate_recon
+    shapes_static.run_with_translation(ctx, translate_recon, "Recon", "reconstruction-formula", lambda: _run(ctx),
+                                       "regenerated from SSPOR.predict / _square_predict / _rectangular_predict: dispatch and formulas = predictExact")
+
+
+def _run(ctx: C.Ctx):
     rng = ctx.rng
     for idx in range(ctx.scale(70, 1200)):
         fm = recon.gen_model(ctx, rng, want_tall=True)
